@@ -182,6 +182,34 @@ func GenProperty(w *Writer, prop string, t Tier, seed uint64) error {
 				op := Pick(r, []string{"eq", "ne", "lt", "le", "gt", "ge"})
 				return Bin{Op: op, L: g.Any(1), R: g.Any(1)}, g.Start
 			}},
+			{fam: "cmp-sets", doc: func(r *Rng) DocCfg {
+				// few distinct values, so that node-sets overlap in some string-values and differ in others
+				c := DefaultDocCfg()
+				c.TextPool = []string{"1", "2", "1", "10", "2", " 1 ", "x", "1.0"}
+				c.MaxKids = 5
+				return c
+			}, gen: func(g *ExprGen, d *Doc, r *Rng) (Expr, int) {
+				g.Cfg.Preds, g.Cfg.Filters, g.Cfg.Unions, g.Cfg.Vars = 1, false, false, false
+				op := Pick(r, []string{"eq", "ne", "lt", "le", "gt", "ge", "ne", "eq"})
+				side := func() Expr {
+					g.Cur = 0
+					switch r.Intn(5) {
+					case 0:
+						return Step{Base: Step{Base: Root{}, Axis: "descendant-or-self", Test: Test{Kind: "node"}}, Axis: "child", Test: Test{Kind: Pick(r, []string{"any", "text", "node"})}}
+					case 1:
+						return Step{Base: Step{Base: Root{}, Axis: "descendant-or-self", Test: Test{Kind: "node"}}, Axis: "attribute", Test: Test{Kind: "any"}}
+					}
+					return g.NodeSet(1, false)
+				}
+				l, rr := side(), side()
+				if r.Chance(1, 4) {
+					rr = Pick(r, []Expr{NumLit{Text: "1"}, Lit{S: "1"}, Lit{S: "2"}, Call{Base: Ctx{}, Name: "true"}, Call{Base: Ctx{}, Name: "false"}, NumLit{Text: "2"}})
+					if r.Chance(1, 2) {
+						l, rr = rr, l
+					}
+				}
+				return Bin{Op: op, L: l, R: rr}, 0
+			}},
 			{fam: "cmp-var", doc: numericDoc, gen: func(g *ExprGen, d *Doc, r *Rng) (Expr, int) {
 				op := Pick(r, []string{"eq", "ne", "lt", "le", "gt", "ge"})
 				vs := []string{"n", "m", "s", "b", "v", "e", "k", "t"}
